@@ -25,6 +25,8 @@ func main() {
 		os.Exit(check(os.Args[2:]))
 	case "replay":
 		os.Exit(replay(os.Args[2:]))
+	case "mutant":
+		os.Exit(mutantCmd(os.Args[2:]))
 	case "explore":
 		explore(os.Args[2:])
 	case "list":
